@@ -38,6 +38,7 @@ RULE = ('HPD (cg, cr, sd, mr) and general nonsingular (gmres*, fgmres, cgnr, cgn
         'minimiser over the k-dimensional (preconditioned) Krylov space; monotone norms; n-step termination.  Non-trivial: k >= 1.')
 RULE += (' '
          'Operator storage alternates dense / CSR; preconditioned CGNR / CGNE checked against their preconditioned Krylov spaces.')
+THOROUGH_ROUNDS = 2
 TRUSTED = ['NumPy lstsq / QR on the oracle side']
 PARTIAL = ['GMRES: Arnoldi relation / orthonormality / triangularisation are hypotheses of the theorem (loops not modelled); Householder GMRES, FGMRES: oracle only',
            'preconditioned CG/CR/CGNR/CGNE optimality: exact-Q loop models + oracle (theorems are for M = I)', 'complex case: oracle only']
